@@ -120,6 +120,10 @@ func c11Doc(r *gen.Rand, nRoots int, failing map[int]bool, stage string) (model.
 	}
 	c08Safe(f)
 	var sb strings.Builder
+	if r.Chance(1, 5) {
+		// a leading line of white space only (ASCII or not): blank for the parser, so nothing to do
+		sb.WriteString([]string{"   \n", "\u3000\n", "\u00a0\t\n", "\n"}[r.Intn(4)])
+	}
 	for i, root := range f {
 		lines := gen.SpellLines(model.Forest{root}, gen.Spelling{Unit: "  ", Bullet: 0, FinalNL: true})
 		for li, l := range lines {
